@@ -19,7 +19,16 @@ class Lib:
         self.nbytes = z3.Function("nbytes", S.Ref, z3.IntSort())        # byte length of a payload object
         self.sizeof_cls = z3.Function("sizeof_cls", z3.IntSort(), z3.IntSort())
         self.used: set[str] = set()
-        self.ufuncs = {"nbytes": (self.nbytes, INT), "isascii": (self.isascii, BOOL), "sizeof_cls": (self.sizeof_cls, INT)}
+        PV = S.sort(PYVAL)
+        self.pv_kind = z3.Function("pv_kind", PV, z3.IntSort())      # 0: int (bool included), 1: float, 2: anything else
+        self.pv_int = z3.Function("pv_int", PV, z3.IntSort())        # the integer, for kind 0
+        self.pv_float = z3.Function("pv_float", PV, S.Float)         # the double, for kind 1
+        self.ufuncs = {"nbytes": (self.nbytes, INT), "isascii": (self.isascii, BOOL), "sizeof_cls": (self.sizeof_cls, INT),
+                       "pv_kind": (self.pv_kind, INT), "pv_int": (self.pv_int, INT), "pv_float": (self.pv_float, FLOAT)}
+
+    def pv_num(self, z):
+        """numeric value of a python int / float as a real (python compares ints and floats by value)"""
+        return z3.If(self.pv_kind(z) == 0, z3.ToReal(self.pv_int(z)), z3.fpToReal(self.pv_float(z)))
 
     def use(self, what):
         self.used.add(what)
